@@ -3806,11 +3806,13 @@ class BoutMesh(Mesh):
 
             if len(self.y_regions_noguards) == 1:
                 # No X-points
+                # Note: jyseps* do not count y-boundary guard cells and must be in
+                # the range -1 <= jyseps1_1 <= ... <= jyseps2_2 <= ny - 1
                 jyseps1_1 = -1
-                jyseps2_1 = self.ny // 2
-                ny_inner = self.ny // 2
-                jyseps1_2 = self.ny // 2
-                jyseps2_2 = self.ny
+                jyseps2_1 = self.ny_noguards // 2
+                ny_inner = self.ny_noguards // 2
+                jyseps1_2 = self.ny_noguards // 2
+                jyseps2_2 = self.ny_noguards - 1
             elif len(self.y_regions_noguards) == 2:
                 raise ValueError("Unrecognized topology with 2 y-regions")
             elif len(self.y_regions_noguards) == 3:
